@@ -276,7 +276,8 @@ def main(argv=None):
             seen_known[c.finding] = seen_known.get(c.finding, 0) + 1
         else:
             unlisted_oracle.append(i)
-    model_only = [i for i in model_fail_idx if not cases[i].oracle_fail]
+    # inside a known-finding region the model must reproduce the defective behaviour exactly: a disagreement there counts
+    model_only = [i for i in model_fail_idx if not cases[i].oracle_fail or (cases[i].finding and cases[i].finding in known_ids)]
 
     def fails_oracle(desc):
         c = prop.run(desc)
